@@ -1090,3 +1090,97 @@ package hermes
 //@   requires window: 1 <= g.ENDE && g.ENDE <= 72684
 //@   ensures loadererrors: !werr
 //@   ensures loaded: (driConfig.WeatherFileFormat == 0 || driConfig.WeatherFileFormat == 1 || driConfig.WeatherFileFormat == 2) ==> exists(y, 0, len(bbbShared.MaxYearDays), bbbShared.JAR[y] == 1900 + g.J && g.JTAG == bbbShared.MaxYearDays[y])
+
+// ---------------------------------------------------------------------------
+// C16  automatic management windows (weather-dependent triggers are arbitrary: every outcome of the trigger tests is covered)
+// automatic irrigation: only between the configured stages of a sown crop, never more than the daily maximum, never negative
+//@ region HermesSession.Run$1#autoirr from "if g.AUTOIRRI {" to "if g.AUTOIRRI {"
+//@   serves C16
+//@   define idx() = g.AKF.Index
+//@   define inwindow() = g.AUTOIRRI && g.SAAT[idx()] > 0 && ZEIT > g.SAAT[idx()] && g.INTWICK.Num >= g.IRRST1[idx()] && g.INTWICK.Num < g.IRRST2[idx()] + 1
+//@   requires crop: 0 <= g.AKF.Index && g.AKF.Index < 300
+//@   requires cursor: 1 <= g.NBR && g.NBR <= len(g.BREG) && len(g.BREG) == len(g.ZTBR) && len(g.BREG) == len(g.BRKZ)
+//@   requires day: 0 <= g.TAG.Index && g.TAG.Index < 366
+//@   requires soil: forall(k, 0, 21, g.WMIN[k] < g.W[k])
+//@   requires table: g.IRRMAX[idx()] >= 0 && g.IRRDEP[idx()] <= 21 && g.WURZMAX <= 21
+//@   requires units: g.DZ.Num == 10
+//@   ensures onlyinwindow: !inwindow() ==> g.BREG[g.NBR-1] == old(g.BREG[g.NBR-1]) && g.ZTBR[g.NBR-1] == old(g.ZTBR[g.NBR-1]) && g.IRRISIM == old(g.IRRISIM)
+//@   ensures capped: g.BREG[g.NBR-1] == old(g.BREG[g.NBR-1]) || (0 <= g.BREG[g.NBR-1] && g.BREG[g.NBR-1] <= g.IRRMAX[idx()] && g.ZTBR[g.NBR-1] == ZEIT)
+//@   ensures cursor: g.NBR == old(g.NBR)
+//@ loop HermesSession.Run$1@"for I := 1; I <= maxdepth; I++ {"
+//@   invariant range: 1 <= \i && (\i <= maxdepth + 1 || maxdepth < 0)
+//@   invariant deficit: DEFZSUM >= 0
+
+// automatic sowing: only inside the window, only once, forced on the last day of the window
+//@ region HermesSession.Run$1#autosow from "if g.AUTOMAN && g.AKF.Num > 1 {" to "if g.AUTOMAN && g.AKF.Num > 1 {"
+//@   serves C16
+//@   define idx() = g.AKF.Index
+//@   define sown() = g.SAAT[idx()] != old(g.SAAT[idx()])
+//@   requires crop: 1 <= g.AKF.Index && g.AKF.Index < 300
+//@   requires day: 0 <= g.TAG.Index && g.TAG.Index < 366
+//@   requires window: g.SAAT1[idx()] <= g.SAAT2[idx()]
+//@   requires pending: g.SAAT[idx()] == 0 ==> ZEIT <= g.SAAT2[idx()]
+//@   requires daynumber: ZEIT >= 1
+//@   ensures inside: sown() ==> g.AUTOMAN && g.AKF.Num > 1 && old(g.SAAT[idx()]) == 0 && g.SAAT[idx()] == ZEIT && g.SAAT1[idx()] <= ZEIT && ZEIT <= g.SAAT2[idx()]
+//@   ensures afterharvest: sown() && ZEIT != g.SAAT2[idx()] ==> ZEIT > g.ERNTE[idx()-1] + 4
+//@   ensures forced: g.AUTOMAN && g.AKF.Num > 1 && old(g.SAAT[idx()]) == 0 && ZEIT == g.SAAT2[idx()] && ZEIT >= g.SAAT1[idx()] ==> g.SAAT[idx()] == ZEIT
+//@   ensures stillpending: g.AUTOMAN && g.AKF.Num > 1 && g.SAAT[idx()] == 0 ==> ZEIT + 1 <= g.SAAT2[idx()] || ZEIT < g.SAAT1[idx()]
+//@   ensures others: forall(k, 0, 300, k != idx() ==> g.SAAT[k] == old(g.SAAT[k])) && unchanged(g.SAAT1, g.SAAT2, g.ERNTE)
+
+// growing the irrigation arrays on demand keeps every earlier entry and stores the new one at the cursor
+//@ func GlobalVarsMain.setIrrigation
+//@   serves C16, C10
+//@   requires index: 0 <= index
+//@   requires lens: len(g.BREG) == len(g.ZTBR) && len(g.BREG) == len(g.BRKZ)
+//@   ensures stored: g.BREG[index] == value && g.ZTBR[index] == zeit
+//@   ensures kept: forall(k, 0, old(len(g.BREG)), k != index ==> g.BREG[k] == old(g.BREG[k]) && g.ZTBR[k] == old(g.ZTBR[k]) && g.BRKZ[k] == old(g.BRKZ[k]))
+//@   ensures lens: len(g.BREG) == len(g.ZTBR) && len(g.BREG) == len(g.BRKZ) && len(g.BREG) > index && len(g.BREG) >= old(len(g.BREG))
+//@   modifies g.BREG, g.ZTBR, g.BRKZ
+//@   safety index
+
+// automatic harvest inside the crop model: the harvest date is set at most once, to today (trigger) or to the latest
+// harvest date (forced on the day before), hence never later than the configured latest date
+//@ region PhytoOut#autoharvest from "if g.ERNTE[g.AKF.Index] == 0 { if g.INTWICK.Index+1 == l.NRENTW {" to "if g.ERNTE[g.AKF.Index] == 0 { if g.INTWICK.Index+1 == l.NRENTW {"
+//@   serves C16
+//@   define idx() = g.AKF.Index
+//@   requires crop: 0 <= g.AKF.Index && g.AKF.Index < 299
+//@   requires stage: 0 <= g.INTWICK.Index && g.INTWICK.Index < 10
+//@   requires day: 0 <= g.TAG.Index && g.TAG.Index < 366
+//@   requires pending: g.ERNTE[idx()] == 0 ==> zeit <= g.ERNTE2[idx()] - 1
+//@   requires daynumber: zeit >= 1
+//@   ensures once: old(g.ERNTE[idx()]) != 0 ==> g.ERNTE[idx()] == old(g.ERNTE[idx()]) && g.ERNTE2[idx()] == old(g.ERNTE2[idx()])
+//@   ensures notlate: g.ERNTE[idx()] != 0 && old(g.ERNTE[idx()]) == 0 ==> (g.ERNTE[idx()] == zeit || g.ERNTE[idx()] == zeit + 1) && g.ERNTE[idx()] <= old(g.ERNTE2[idx()]) && g.ERNTE[idx()] <= g.ERNTE2[idx()]
+//@   ensures forced: old(g.ERNTE[idx()]) == 0 && zeit == old(g.ERNTE2[idx()]) - 1 ==> g.ERNTE[idx()] != 0
+//@   ensures stillpending: g.ERNTE[idx()] == 0 ==> zeit + 1 <= g.ERNTE2[idx()] - 1
+//@   ensures nextsowing: forall(k, 0, 300, k != idx() + 1 ==> g.SAAT[k] == old(g.SAAT[k])) && (g.SAAT[idx()+1] == old(g.SAAT[idx()+1]) || g.SAAT[idx()+1] == zeit + 4)
+
+//@ region PhytoOut#forcedharvest from "if zeit == g.ERNTE2[g.AKF.Index]-1 && g.ERNTE[g.AKF.Index] == 0 { g.ERNTE[g.AKF.Index] = zeit + 1 if g.SAAT" to "if zeit == g.ERNTE2[g.AKF.Index]-1 && g.ERNTE[g.AKF.Index] == 0 { g.ERNTE[g.AKF.Index] = zeit + 1 if g.SAAT"
+//@   serves C16
+//@   define idx() = g.AKF.Index
+//@   requires crop: 0 <= g.AKF.Index && g.AKF.Index < 299
+//@   ensures forced: old(g.ERNTE[idx()]) == 0 && zeit == g.ERNTE2[idx()] - 1 ==> g.ERNTE[idx()] == g.ERNTE2[idx()]
+//@   ensures otherwise: !(old(g.ERNTE[idx()]) == 0 && zeit == g.ERNTE2[idx()] - 1) ==> unchanged(g.ERNTE, g.SAAT, g.SAAT2)
+//@   ensures latest: unchanged(g.ERNTE2)
+
+// rotation cursor at harvest: only moves forward, by one entry (two when the next crop is skipped because its sowing
+// window has already closed under automatic management); a crop record is produced for every harvested crop
+//@ region Nitro#harvest from "if zeit == g.ERNTE[g.AKF.Index] && subd == 1 {" to "if zeit == g.ERNTE[g.AKF.Index] && subd == 1 {"
+//@   serves C16, C05
+//@   opaque resid pinit fillBBCHgaps convertToDate
+//@   ghost var hm int
+//@   ghost var hd int
+//@   after call KalenderDate: ghost hm = res1
+//@   after call KalenderDate: ghost hd = res2
+//@   define cur() = old(g.AKF.Index)
+//@   define due() = zeit == old(g.ERNTE[g.AKF.Index]) && subd == 1
+//@   requires crop: 0 <= g.AKF.Index && g.AKF.Index < 297 && g.AKF.Offset == 1 && g.AKF.Num == real(g.AKF.Index + g.AKF.Offset)
+//@   requires tillage: 0 <= g.NTIL.Index && g.NTIL.Index < 199
+//@   requires organ: 0 <= g.YORGAN && g.YORGAN <= 5
+//@   requires roots: 0 <= g.WURZ && g.WURZ <= 20
+//@   requires date: 1 <= zeit && zeit <= 72684
+//@   ensures[C16] notdue: !due() ==> g.AKF.Index == cur() && finishedCycle == old(finishedCycle)
+//@   ensures[C16] forward: due() ==> g.AKF.Index == cur() + 1 || g.AKF.Index == cur() + 2
+//@   ensures[C16] skiponly: due() && g.AKF.Index == cur() + 2 ==> g.AUTOMAN && g.SAAT2[cur() + 1] <= zeit
+//@   ensures[C05,C16] record: due() && cur() >= 1 ==> finishedCycle
+//@   ensures[C16] harvestyear: due() && cur() >= 1 && g.AKF.Index == cur() + 1 ==> validDate(output.HarvestYear, hm, hd) && daynumber(output.HarvestYear, hm, hd) == zeit
+//@   ensures[C16] rotation: unchanged(g.FRUCHT, g.SAAT1, g.SAAT2, g.ERNTE2)
